@@ -280,7 +280,7 @@ func runSession(r *vrt.Run, rng *rand.Rand, sess int, gmp int) (res *sessionResu
 		}
 	}()
 
-	deadline := time.After(90 * time.Second)
+	deadline := time.After(300 * time.Second) // watchdog: inconclusive only
 	select {
 	case <-scriptDone:
 	case <-deadline:
@@ -430,17 +430,18 @@ func doHTTP(server *rpc.Server, service *svc, m *message, rng *rand.Rand) httpOu
 }
 
 func run(r *vrt.Run) {
-	r.Rule("each case is one generated session against a fresh rpc.Server (random SetBatchLimits item limit in {0,3,8,25} and response limit in {0,120,2500,60000}) with a test service (echo, fail, panic, nothing, large 0-120kB, sleep, ctx-aware sleep, latch-blocked, ctx-aware latch-blocked, subscribe emitting k buffered + bg racing notifications, unknown method, bad params): 20-80 raw messages over a ServeCodec pipe (singles, batches of 1-30 elements mixing calls, notifications, invalid elements with and without id, response-shaped and subscription-shaped elements, duplicate ids, empty batches; pipelined, with latch releases and pacing steps; optional final syntax garbage or truncated input) plus 6-20 concurrent ServeHTTP requests with context deadlines of 0.1-6 ms against method latencies of 0-4 ms; GOMAXPROCS in {1,4,16}; sched perturbation at the rpc yield points. Non-trivial signature = (item limit hit, response limit hit, garbage kind, subscriptions activated, timeout-vs-completion orders observed over HTTP {timer first, method first}, batch with duplicate ids present, GOMAXPROCS, message-count bucket)")
+	r.Rule("each case is one generated session against a fresh rpc.Server (random SetBatchLimits item limit in {0,3,8,25} and response limit in {0,120,2500,60000}) with a test service (echo, fail, panic, nothing, large 0-70kB, sleep, ctx-aware sleep, latch-blocked, ctx-aware latch-blocked, subscribe emitting k buffered + bg racing notifications, unknown method, bad params): 20-80 raw messages over a ServeCodec pipe (singles, batches of 1-30 elements mixing calls, notifications, invalid elements with and without id, response-shaped and subscription-shaped elements, duplicate ids, empty batches; pipelined, with latch releases and pacing steps; optional final syntax garbage or truncated input) plus 6-20 concurrent ServeHTTP requests with context deadlines of 0.1-6 ms against method latencies of 0-4 ms; GOMAXPROCS in {1,4,16 (or the environment's limit)}; sched perturbation at the rpc yield points. Non-trivial signature = (item limit hit, response limit hit, garbage kind, subscriptions activated, timeout-vs-completion orders observed over HTTP {timer first, method first}, batch with duplicate ids present, GOMAXPROCS, message-count bucket)")
 	ctl := sched.New(uint64(r.Seed)*0x9e3779b97f4a7c15 + 4949)
 	ctl.Intensity = 50
 	rpc.VerifYieldHook = ctl.Hook
 
 	n := r.N(300, 20000)
 	if r.Race() {
-		n = r.N(90, 4000)
+		n = r.N(60, 3000) // about 1 CPU-second per session under -race (a goroutine per call, deep stacks)
 	}
-	gmps := []int{1, 4, 16}
 	orig := runtime.GOMAXPROCS(0)
+	// phases {1, 4, 16}; the top phase follows the environment when that is throttled
+	gmps := []int{1, 4, min(16, max(orig, 4))}
 	per := n / len(gmps)
 	for gi, gmp := range gmps {
 		runtime.GOMAXPROCS(gmp)
